@@ -141,7 +141,9 @@ private:
     }
 
     ~node() override {
-      for (unsigned i = pop_idx; i < push_idx; i += step_size) {
+      // push_idx/pop_idx can exceed max_idx when several threads hit a full/drained node
+      const unsigned end = std::min(push_idx.load(std::memory_order_relaxed), max_idx);
+      for (unsigned i = pop_idx; i < end; i += step_size) {
         traits::delete_value(entries[i % entries_per_node].value.load(std::memory_order_relaxed).get());
       }
     }
